@@ -215,7 +215,7 @@ FUZZ_TARGETS = {"quote": (lambda data: {"kind": "quote", "s": F.text_from_bytes(
 def campaigns(tier, seed):
     red_len, full_len = (3, 2) if tier == "quick" else (4, 3)
     return [
-        Campaign("quote-coverage-guided", F.fuzz_campaign("quote", runs=(3000, 200000), max_len=48, dictionary=F.URL_DICT + ["%E2%82", "%F0%9F%98%80", "%C2%85", "%1F", "%80", "%%", "%2", "%ED%A0%80"]), "atheris",
+        Campaign("quote-coverage-guided", F.fuzz_campaign("quote", runs=(3000, 200000), max_len=48, dictionary=F.URL_DICT + ["%E2%82", "%F0%9F%98%80", "%C2%85", "%1F", "%80", "%%", "%2", "%ED%A0%80"]), F.ENGINE,
                  bounds="libFuzzer over UTF-8 strings <= 48 bytes through every quoting / unquoting function"),
         Campaign("exhaustive-reduced", _enum, "enumeration", exhaustive=True,
                  bounds="all sequences of <=%d tokens over a %d-token alphabet (one or two per class)" % (red_len, len(REDUCED)),
